@@ -35,7 +35,9 @@ Definition todo_of (c : loop_pc) : list nat :=
 Definition loc (s : state) (j : nat) : local :=
   mkL (view_of (pc s) j) (mem j (todo_of (pc s))) (mem j (subs s))
       (lpc_of (s_pc (sub s j))) (s_ctx (sub s j)) (some (s_dbuf (sub s j)))
-      (s_dclosed (sub s j)) (some (s_fail (sub s j))).
+      (s_dclosed (sub s j)) (some (s_fail (sub s j)))
+      (match s_rem (sub s j), s_reg (sub s j) with
+       | Some _, _ => Removed | None, Some _ => Reg | None, None => NeverReg end).
 
 Definition kind (j : nat) (l : label) (s : state) : lk :=
   match l with
@@ -126,7 +128,7 @@ Ltac simp_in H :=
   rewrite ?upd_same in H;
   cbn [pc subs rep done_closed closed_closed order puts sub pub shut
        set_pc set_subs set_rep set_done_closed set_closed_closed set_order set_puts set_sub set_pub set_shut
-       s_pc s_ctx s_dbuf s_dclosed s_topics s_rlog s_llog s_fail s_reg s_rem s_cancel
+       s_pc s_ctx s_dbuf s_dclosed s_topics s_rlog s_llog s_fail s_reg s_rem s_cancel s_rsnap w_rsnap
        w_pc w_ctx w_dbuf w_dclosed w_topics w_rlog w_llog w_fail w_reg w_rem w_cancel
        p_pc p_topics p_ebuf p_eclosed wp_pc wp_topics wp_ebuf wp_eclosed h_pc h_ctx] in H.
 
@@ -210,4 +212,5 @@ Proof.
     unfold send_done, close_done, recv1, panic in H; brk H; injection H as <-; eqs;
     try (specialize (Hp eq_refl); cbn in Hp; try discriminate Hp; injection Hp as <-).
   all: dispatch.
+  all: try (destruct (s_rem (sub s _)); try destruct (s_reg (sub s _)); reflexivity).
 Qed.
